@@ -43,7 +43,7 @@ type vfAQServer struct {
 
 func vfAQNew(answer func() (int, string)) *vfAQServer {
 	s := &vfAQServer{answer: answer}
-	s.srv = httptest.NewServer(http.HandlerFunc(func(w http.ResponseWriter, r *http.Request) {
+	s.srv = vfHTTPServer(http.HandlerFunc(func(w http.ResponseWriter, r *http.Request) {
 		b, _ := io.ReadAll(r.Body)
 		s.mu.Lock()
 		s.seen = append(s.seen, vfAQSeen{r.Method, r.URL.Path, r.URL.RawQuery, b, r.Header.Get("Content-Type")})
